@@ -66,4 +66,38 @@ fn main() {
     out.push_str("    v\n}\n");
     let dst = PathBuf::from(env::var("OUT_DIR").unwrap()).join("simd_src.rs");
     fs::write(dst, out).unwrap();
+    server_copy();
+}
+
+/// Copies the CURRENT /repo/engine/src/bin/kyrodb_server.rs into OUT_DIR (inner doc comments demoted,
+/// the test module cut) so `srvinc.rs` can include it and call the real, private RPC handlers
+/// (`KyroDBServiceImpl`) in-process under the controlled scheduler.
+fn server_copy() {
+    let src_path = "/repo/engine/src/bin/kyrodb_server.rs";
+    println!("cargo:rerun-if-changed={}", src_path);
+    let src = fs::read_to_string(src_path).expect("read kyrodb_server.rs");
+    let mut out = String::new();
+    let lines: Vec<&str> = src.lines().collect();
+    let mut i = 0;
+    while i < lines.len() {
+        let line = lines[i];
+        // the trailing test module
+        if line.starts_with("#[cfg(test)]") && i + 1 < lines.len() && lines[i + 1].starts_with("mod tests") {
+            break;
+        }
+        if let Some(rest) = line.strip_prefix("//!") {
+            out.push_str("//");
+            out.push_str(rest);
+        } else {
+            out.push_str(line);
+        }
+        out.push('\n');
+        i += 1;
+    }
+    let dst = PathBuf::from(env::var("OUT_DIR").unwrap()).join("server_src.rs");
+    fs::write(dst, out).unwrap();
+    println!("cargo:rustc-env=GIT_COMMIT_HASH=verif");
+    println!("cargo:rustc-env=GIT_BRANCH=verif");
+    println!("cargo:rustc-env=BUILD_TIMESTAMP=0");
+    println!("cargo:rustc-env=TARGET_TRIPLE=verif");
 }
